@@ -631,6 +631,14 @@ class Interp:
                     acc = self.call_closure(unref(args[2]), [acc, item], e)
                 return acc
             self.unsupported("iterator method %s" % name, e)
+        if isinstance(x, Rec) and x.adt in ("std::Range", "std::RangeInclusive"):
+            if name == "contains" and len(a) == 2 and isinstance(a[1], Sc):
+                lo, hi = unref(x.f["start"]), unref(x.f["end"])
+                if isinstance(lo, Sc) and isinstance(hi, Sc):
+                    if not self.compare("<=", lo, a[1]).b:
+                        return BoolV(False)
+                    return self.compare("<" if x.adt == "std::Range" else "<=", a[1], hi)
+            self.unsupported("range method %s" % name, e)
         if isinstance(x, Rec):
             return self.dyn_dispatch(name, c, a, args, e)
         self.unsupported("leaf call %s (%s) on %r" % (name, path, x), e)
@@ -749,6 +757,20 @@ class Interp:
             if x.some:
                 return x.v
             raise PanicEx("unwrap on None")
+        if name == "is_some_and":
+            if not x.some:
+                return BoolV(False)
+            r = unref(self.call_closure(rest[0], [x.v], e))
+            if isinstance(r, BoolV):
+                return r
+            self.unsupported("is_some_and predicate", e)
+        if name == "is_none_or":
+            if not x.some:
+                return BoolV(True)
+            r = unref(self.call_closure(rest[0], [x.v], e))
+            if isinstance(r, BoolV):
+                return r
+            self.unsupported("is_none_or predicate", e)
         if name == "is_some":
             return BoolV(x.some)
         if name == "is_none":
@@ -1216,7 +1238,33 @@ class Interp:
                 return self.rec_compare(name, op, a, b, c, e)
             if isinstance(a, BoolV) and isinstance(b, BoolV) and op in ("==", "!="):
                 return BoolV((a.b == b.b) == (op == "=="))
+            if op in ("==", "!="):
+                r = self.struct_eq(a, b, e)
+                if r is not None:
+                    return BoolV(r == (op == "=="))
         self.unsupported("binary %s on %r, %r" % (op, type(a).__name__, type(b).__name__), e)
+
+    def struct_eq(self, a, b, e):
+        """structural equality of std values as the derived PartialEq impls see it"""
+        if isinstance(a, Phantom) and isinstance(b, Phantom):
+            return True
+        if isinstance(a, Unit) and isinstance(b, Unit):
+            return True
+        if isinstance(a, Opt) and isinstance(b, Opt):
+            if a.some != b.some:
+                return False
+            if not a.some:
+                return True
+            return self.struct_eq(unref(a.v), unref(b.v), e)
+        if isinstance(a, Mat) and isinstance(b, Mat):
+            return self.compare("==", Sc(a.p), Sc(b.p)).b
+        if isinstance(a, Sc) and isinstance(b, Sc):
+            return self.compare("==", a, b).b
+        if isinstance(a, Rec) and isinstance(b, Rec):
+            return self.rec_compare("eq", "==", a, b, None, e).b
+        if isinstance(a, Tup) and isinstance(b, Tup) and len(a.vs) == len(b.vs):
+            return all(self.struct_eq(unref(x), unref(y), e) for x, y in zip(a.vs, b.vs))
+        return None
 
     def lift_const(self, a, like, e):
         f = {}
@@ -1416,6 +1464,28 @@ class Interp:
     def ev_for(self, e, env):
         """`for pat in range { body }`: only as an element-uniform loop (the body is evaluated once for a symbolic
         index); enabled by rules that have verified the loop template structurally (C13.3)"""
+        # a loop over the rule's own finite list of symbolic items (IterV) is evaluated item by item
+        try:
+            itv = None
+            call = e["scrut"]
+            if call["k"] == "call" and call["args"]:
+                a0 = call["args"][0]
+                if a0["k"] == "path" and a0["res"].get("r") == "local":
+                    itv = unref(self.ev(a0, env))
+        except Unsupported:
+            itv = None
+        if isinstance(itv, IterV):
+            arm = e["arms"][0]
+            loop = arm["body"]
+            inner = loop["body"]["stmts"][0]["e"] if loop["body"]["stmts"] else loop["body"]["tail"]
+            some_arm = [a for a in inner["arms"]
+                        if (a["pat"]["k"] == "tuplestruct") or (a["pat"]["k"] == "struct" and a["pat"]["fields"])][0]
+            pat = some_arm["pat"]["pats"][0] if some_arm["pat"]["k"] == "tuplestruct" else some_arm["pat"]["fields"][0]["pat"]
+            for item in itv.items:
+                if not self.bind(pat, item, env):
+                    self.unsupported("refutable for pattern", e)
+                self.ev(some_arm["body"], env)
+            return UNIT
         if not getattr(self, "elementwise_loops", False):
             self.unsupported("for loop", e)
         try:
@@ -1461,6 +1531,9 @@ class Interp:
 
     def ev_struct(self, e, env):
         adt = self.F.adt_name(e["t"])
+        names = {fl["name"] for fl in e["fields"]}
+        if adt in ("Range", "RangeInclusive") and names == {"start", "end"}:
+            return Rec("std::" + adt, {fl["name"]: self.ev(fl["e"], env) for fl in e["fields"]})
         if adt is None:
             self.unsupported("struct literal of non-ADT", e)
         f = {}
@@ -1565,4 +1638,92 @@ class DomC:
         return a.show()
 
     def concrete(self, a):
+        return None
+
+
+# ----------------------------------------------------------------------------- domain T (uninterpreted terms)
+class Term:
+    """hash-consed uninterpreted expression tree: two values are equal iff they were computed by the same float operations
+    on the same inputs in the same order (commutativity of + and * is the only identity used; it is exact in IEEE arithmetic)"""
+    __slots__ = ("t",)
+
+    def __init__(self, t):
+        self.t = t
+
+    def rename_idx(self, mp):
+        return self
+
+    def show(self):
+        def s(x):
+            if isinstance(x, tuple):
+                return x[0] + "(" + ",".join(s(y) for y in x[1:]) + ")" if len(x) > 1 else str(x[0])
+            return str(x)
+        return s(self.t)
+
+    def __eq__(self, o):
+        return isinstance(o, Term) and self.t == o.t
+
+    def __hash__(self):
+        return hash(self.t)
+
+    def __repr__(self):
+        return "Term[%s]" % self.show()
+
+
+class DomT:
+    name = "T"
+
+    def const(self, c):
+        return Term(("const:%s" % c,))
+
+    def named(self, name):
+        return Term(("named:%s" % name,))
+
+    def _comm(self, op, a, b):
+        x, y = sorted([a.t, b.t], key=repr)
+        return Term((op, x, y))
+
+    def add(self, a, b):
+        return self._comm("add", a, b)
+
+    def mul(self, a, b):
+        return self._comm("mul", a, b)
+
+    def sub(self, a, b):
+        return Term(("sub", a.t, b.t))
+
+    def div(self, a, b):
+        return Term(("div", a.t, b.t))
+
+    def rem(self, a, b):
+        return Term(("rem", a.t, b.t))
+
+    def neg(self, a):
+        return Term(("neg", a.t))
+
+    def recip(self, a):
+        return Term(("recip", a.t))
+
+    def powi(self, a, n):
+        return Term(("powi", a.t, n.t))
+
+    def powf(self, a, n):
+        return Term(("powf", a.t, n.t))
+
+    def fn(self, name, a):
+        return Term((name, a.t))
+
+    def fn2(self, name, a, b):
+        return Term((name, a.t, b.t))
+
+    def key(self, a):
+        return ("term", a.t)
+
+    def show(self, a):
+        return a.show()
+
+    def concrete(self, a):
+        t = a.t
+        if len(t) == 1 and isinstance(t[0], str) and t[0].startswith("const:"):
+            return Fr(t[0][6:])
         return None
